@@ -63,7 +63,7 @@ W = [
  ("ReaderValuesFromTagPath","rdr io.Reader, path string, getAttrs ...bool","[]interface{}, error",GA+"m, err := mxj.NewMapXmlReader(rdr); if err != nil { return nil, err }; return ValuesFromKeyPath(m, path, a), nil"),
  ("ReaderValuesForTag","rdr io.Reader, tag string","[]interface{}, error","m, err := mxj.NewMapXmlReader(rdr); if err != nil { return nil, err }; return ValuesForKey(m, tag), nil"),
 ]
-def gen(pkg, table, path, imp='. "github.com/clbanning/mxj/v2"', extra_spec='', extra_con=''):
+def gen(pkg, table, path, imp='. "github.com/clbanning/mxj/v2"', extra_spec='', extra_con='', extra_imp=''):
     spec=[f'''//go:build verif
 // +build verif
 
@@ -75,7 +75,7 @@ package {pkg}
 import (
 	{imp}
 	"io"
-	"reflect"
+	"reflect"{extra_imp}
 )
 
 var _ io.Reader
@@ -108,4 +108,4 @@ package {pkg}
 import os
 HERE=os.path.dirname(os.path.abspath(__file__))
 gen('j2x',J,'/repo/j2x'); gen('x2j',X,'/repo/x2j')
-gen('x2j',W,'/repo/x2j-wrapper','"github.com/clbanning/mxj/v2"',open(HERE+'/x2jw_spec.go.txt').read(),open(HERE+'/x2jw_contracts.txt').read())
+gen('x2j',W,'/repo/x2j-wrapper','"github.com/clbanning/mxj/v2"',open(HERE+'/x2jw_spec.go.txt').read(),open(HERE+'/x2jw_contracts.txt').read(),'\n\t"strings"')
